@@ -250,7 +250,7 @@ func (vfs *MemFS) EvalSymlinks(path string) (string, error) {
 	vfs.treeMu.RLock()
 	defer vfs.treeMu.RUnlock()
 
-	_, _, pi, err := vfs.searchNode(path, slmEval)
+	_, _, pi, err := vfs.searchNode(path, slmLinks)
 	if err != vfs.err.FileExists {
 		return "", &fs.PathError{Op: op, Path: pi.LeftPart(), Err: err}
 	}
